@@ -128,7 +128,8 @@ func xitems(atoms []xatom, quants []string) []xnode {
 	return out
 }
 
-var xAtoms = []xatom{{"a", "A"}, {"b", "B"}, {"[ab]", "[AB]"}, {"[^a]", "[^A]"}, {".", "."}, {`\w`, `\w`}, {"-", "-"}, {`\d`, `\d`}}
+var xAtoms = []xatom{{"a", "A"}, {"b", "B"}, {"[ab]", "[AB]"}, {"[^a]", "[^A]"}, {".", "."}, {`\w`, `\w`}, {"-", "-"}, {`\d`, `\d`},
+	{"[^ab]", "[^AB]"}, {`\W`, `\W`}, {`\s`, `\s`}, {"[a-]", "[A-]"}, {"1", "1"}, {"(?:a|-)", "(?:A|-)"}, {`[\w-[a]]`, `[\w-[A]]`}}
 var xSmallAtoms = []xatom{{"a", "A"}, {"[ab]", "[AB]"}, {"[^a]", "[^A]"}, {".", "."}, {"-", "-"}}
 var xBasicQ = []string{"", "*", "+", "?"}
 var xFullQ = []string{"", "*", "+", "?", "*?", "+?", "{2}", "{1,2}", "??"}
@@ -489,7 +490,8 @@ func xcaseVariants(t []rune) [][]rune {
 
 func xCasePatterns(level int) []xnode {
 	atoms := []xatom{{"a", "A"}, {"b", "B"}, {"[ab]", "[AB]"}, {"[ab]", "[aB]"}, {"[^a]", "[^A]"}, {"[a-b]", "[A-B]"}, {"[^a-b]", "[^A-B]"},
-		{"[a-c-[b]]", "[A-C-[B]]"}, {`[\w-[a]]`, `[\w-[A]]`}, {`[\s\S-[a]]`, `[\s\S-[A]]`}, {".", "."}, {"-", "-"}, {"é", "É"}, {"[éa]", "[ÉA]"}, {"д", "Д"}, {"[^д]", "[^Д]"}, {"[а-д]", "[А-Д]"}, {"k", "K"}, {"[i-k]", "[I-K]"}}
+		{"[a-c-[b]]", "[A-C-[B]]"}, {`[\w-[a]]`, `[\w-[A]]`}, {`[\s\S-[a]]`, `[\s\S-[A]]`}, {".", "."}, {"-", "-"}, {"é", "É"}, {"[éa]", "[ÉA]"}, {"д", "Д"}, {"[^д]", "[^Д]"}, {"[а-д]", "[А-Д]"}, {"k", "K"}, {"[i-k]", "[I-K]"},
+		{"[^ab]", "[^AB]"}, {"(?:a|-)", "(?:A|-)"}, {"[a-]", "[A-]"}, {"(?:ab)", "(?:AB)"}, {`[^\W-[a]]`, `[^\W-[A]]`}, {"[b-k-[c-j]]", "[B-K-[C-J]]"}, {`\p{Ll}`, `\p{Lu}`}}
 	quants := []string{"", "*", "+", "?", "{2}"}
 	items := xitems(atoms, quants)
 	small := xitems(atoms[:12], xBasicQ)
